@@ -395,10 +395,8 @@ func TestC20(t *testing.T) {
 	defer rec.Flush(t)
 	o := gen.DefaultHistOpt(limits(), false)
 	o.BigBase = false
-	n := 0
 	rapidCheck(t, func(rt *rapid.T) {
-		n++
-		if n%3 == 0 {
+		if rapid.IntRange(0, 2).Draw(rt, "part") == 0 {
 			c := drawE2E(rt, o)
 			st, _, _, err := runE2E(c)
 			if err != nil {
